@@ -1,11 +1,11 @@
 //! C07 — styled-run extraction follows standard SGR semantics.
-use checks::real::*;
+use checks::oracle::{check_stream, first_diff, has_kind_replacement, real_chars};
 use proptest::prelude::*;
 use serde_json::{json, Value};
-use vcore::drive::{chunks_from_cuts, prop_par, Verdict};
-use vcore::gen::{self, Group, Item, SgrStreamCfg};
+use vcore::drive::{prop_par, Verdict};
+use vcore::gen::{self, Item, SgrStreamCfg};
 use vcore::rt::{self, digest, esc, Acc, Args, Report};
-use vcore::sgr::{self, from_style, MStyle, UL_KINDS};
+use vcore::sgr::{self};
 use vcore::vt::{self, St};
 
 const RULE: &str = "Exhaustive: every SGR sequence of 1..3 attribute groups over the representative group set, from the default state and from a non-default base style, each followed by text. Generated: valid-UTF-8 streams of text, whitespace/C0 controls, G-SGR sequences (1..8 groups, <= 32 values; ';' and ':' spellings; 4:n; empty; leading zeros; unknown codes) and non-SGR sequences (other CSI finals, CSI m with private marker/intermediate, OSC, DCS, ESC, SOS/PM/APC), fed whole and in generated chunks. Oracles: (1) per-character (style, char) == reference SGR interpreter over the reference VT parser; (2) combined sequence == the same groups sent as separate sequences (extractor only); (3) stream with all non-SGR sequences deleted gives the same result. Direct replacement of one underline kind by another is excluded by construction (counted). Non-trivial = a sequence with >= 2 groups, an extended colour or 4:n, followed by visible text; distinct by stream bytes.";
@@ -20,81 +20,10 @@ const REP_GROUPS: &[&str] = &[
     "99", "108", "256", "65535",
 ];
 
-fn model_chars(bytes: &[u8]) -> Vec<(MStyle, char)> {
-    sgr::styled_chars(bytes, vt::is_ws_control)
-}
 
-fn real_chars(chunks: &[&[u8]]) -> Vec<(MStyle, char)> {
-    extract_chunked(chunks)
-        .into_iter()
-        .map(|(s, c)| (from_style(s), c))
-        .collect()
-}
 
-fn first_diff(real: &[(MStyle, char)], model: &[(MStyle, char)]) -> Option<String> {
-    if real == model {
-        return None;
-    }
-    let n = real.len().min(model.len());
-    for i in 0..n {
-        if real[i] != model[i] {
-            return Some(format!(
-                "character #{i}: extractor gives {:?} with [{}], a conforming terminal shows {:?} with [{}]",
-                real[i].1,
-                real[i].0.describe(),
-                model[i].1,
-                model[i].0.describe()
-            ));
-        }
-    }
-    Some(format!(
-        "extractor yields {} characters, reference {}",
-        real.len(),
-        model.len()
-    ))
-}
 
-/// oracle 1 on a byte stream (fed in `cuts` chunks)
-fn check_stream(bytes: &[u8], cuts: &[usize]) -> Result<(), String> {
-    let chunks = chunks_from_cuts(bytes, cuts);
-    let real = real_chars(&chunks);
-    let model = model_chars(bytes);
-    match first_diff(&real, &model) {
-        None => Ok(()),
-        Some(d) => Err(format!("input {} (cuts {:?}): {d}", esc(bytes), cuts)),
-    }
-}
 
-/// does the reference parser see a kind replacement in this stream?
-fn has_kind_replacement(bytes: &[u8]) -> bool {
-    let mut st = MStyle::default();
-    for e in vt::events(bytes) {
-        if let Some(groups) = sgr::sgr_groups(&e) {
-            // apply group by group (';'-form extended colours span several)
-            let mut i = 0;
-            while i < groups.len() {
-                let span = if groups[i].len() == 1 && matches!(groups[i][0], 38 | 48 | 58) {
-                    match groups.get(i + 1).map(|g| g.as_slice()) {
-                        Some([5]) => 3,
-                        Some([2]) => 5,
-                        _ => 1,
-                    }
-                } else {
-                    1
-                };
-                let end = (i + span).min(groups.len());
-                let before = st.effects & UL_KINDS;
-                st = sgr::apply_sgr(st, &groups[i..end]);
-                let after = st.effects & UL_KINDS;
-                if before != 0 && after != 0 && before != after {
-                    return true;
-                }
-                i = end;
-            }
-        }
-    }
-    false
-}
 
 /// is the stream non-trivial: an SGR sequence with >= 2 groups / extended
 /// colour / 4:n that is followed by visible text
